@@ -521,8 +521,8 @@ pub fn run(ctx: &Ctx) -> (Acc, String, bool) {
     let intern_total = npool.pow(ilen as u32);
     let groups = near_collision_groups();
     let group_total = groups.len() as u64 * ctx.pick(6, 40);
-    let long_total: u64 = ctx.pick(24, 160);
-    let long_ops: usize = ctx.pick(1500, 10_000);
+    let long_total: u64 = ctx.pick(24, 96);
+    let long_ops: usize = ctx.pick(1500, 6_000);
     let seed = ctx.seed;
     let acc = run_cases(ctx, total_h + intern_total + group_total + long_total, |i, acc| {
         if i < total_h {
